@@ -55,7 +55,7 @@ func resolveTypes(env *Environment, errorSink *validation.ErrorSink) *Environmen
 	VisitWithContext(env, &visitorContext{symbolTable: env.SymbolTable}, func(self VisitorWithContext[*visitorContext], node Node, context *visitorContext) {
 		switch t := node.(type) {
 		case *Namespace:
-			self.VisitChildren(node, &visitorContext{currentNamespace: t.Name, symbolTable: env.SymbolTable})
+			self.VisitChildren(node, &visitorContext{currentNamespace: t.Name, symbolTable: symbolsVisibleFrom(t, env.SymbolTable)})
 			return
 		case TypeDefinition:
 			definitionMeta := t.GetDefinitionMeta()
@@ -99,7 +99,7 @@ func convertGenericReferences(env *Environment, errorSink *validation.ErrorSink)
 	VisitWithContext(env, visitorContext{symbolTable: env.SymbolTable}, func(self VisitorWithContext[visitorContext], node Node, context visitorContext) {
 		switch t := node.(type) {
 		case *Namespace:
-			self.VisitChildren(node, visitorContext{context.symbolTable, t.Name})
+			self.VisitChildren(node, visitorContext{symbolsVisibleFrom(t, env.SymbolTable), t.Name})
 			return
 		case TypeDefinition:
 			definitionMeta := t.GetDefinitionMeta()
@@ -126,6 +126,26 @@ func convertGenericReferences(env *Environment, errorSink *validation.ErrorSink)
 	})
 
 	return env
+}
+
+// symbolsVisibleFrom returns the symbols a namespace can refer to: its own and those of the
+// namespaces it imports, directly or through its imports. (The symbol table holds the types of
+// all loaded packages; a package that used a namespace it does not import was accepted whenever
+// some other package happened to import that namespace, and the generated code did not build.)
+func symbolsVisibleFrom(namespace *Namespace, symbolTable SymbolTable) SymbolTable {
+	reachable := map[string]bool{namespace.Name: true}
+	for _, ref := range namespace.GetAllChildReferences() {
+		reachable[ref.Name] = true
+	}
+
+	visible := make(SymbolTable, len(symbolTable))
+	for name, definition := range symbolTable {
+		if reachable[definition.GetDefinitionMeta().Namespace] {
+			visible[name] = definition
+		}
+	}
+
+	return visible
 }
 
 func resolveTypeByName(typeName string, currentNamespace string, symbolTable SymbolTable) (TypeDefinition, error) {
